@@ -9,6 +9,7 @@ mod c12;
 mod c13;
 mod c14;
 mod c19;
+mod c20;
 mod evprog;
 mod rtprops;
 
@@ -38,6 +39,7 @@ fn main() {
             "c13" => c13::replay(case),
             "c14" => c14::replay(case),
             "c19" => c19::replay(case),
+            "c20" => c20::replay(case),
             other => {
                 eprintln!("no replay for sub-command {other}");
                 2
@@ -59,6 +61,7 @@ fn main() {
         "c13" => c13::cmd(&args),
         "c14" => c14::cmd(&args),
         "c19" => c19::cmd(&args),
+        "c20" => c20::cmd(&args),
         other => {
             eprintln!("unknown sub-command {other}");
             std::process::exit(2);
